@@ -20,7 +20,7 @@ func init() {
 	register("CLN-3", "read-only blueprint: cloning, snapshotting and cataloguing never write through the receiver", 30, ruleCLN3)
 	register("CLN-4", "working-memory clone is re-targeted to the instance's own nodes", 5, ruleCLN4)
 	register("CLN-5", "no shared mutable state (package-level variables) on concurrent paths", 4, ruleCLN5)
-	register("CLN-6", "self-check gates the result of NewKnowledgeBaseInstance", 1, ruleCLN6)
+	register("CLN-6", "NewKnowledgeBaseInstance hands out a fresh clone; a failed self-check is not ignored", 2, ruleCLN6)
 	register("CLN-7", "clone-table discipline: lookup before clone, mark after clone, for every child", 20, ruleCLN7)
 	register("CLN-8", "clone table integrity: IsCloned looks up what MarkCloned records, and the record holds the clone", 2, ruleCLN8)
 }
@@ -624,6 +624,59 @@ func ruleCLN6(c *Ctx) {
 		c.AnchorLost("NewKnowledgeBaseInstance")
 		return
 	}
+	// (a) what is handed out is always a fresh clone, never the library's own knowledge base
+	cloneFn := p.Method("ast", "KnowledgeBase", "Clone")
+	nSucc, bad := 0, ""
+	var clones []ssa.Value
+	for _, ret := range returnsOf(fn) {
+		if len(ret.Results) != 2 || !isNilConst(ret.Results[1]) {
+			continue
+		}
+		nSucc++
+		v := unspill(ret.Results[0])
+		isClone := false
+		var chk func(v ssa.Value, depth int) bool
+		chk = func(v ssa.Value, depth int) bool {
+			if depth > 4 {
+				return false
+			}
+			switch x := v.(type) {
+			case *ssa.Extract:
+				if call, ok := x.Tuple.(*ssa.Call); ok && call.Call.StaticCallee() == cloneFn && x.Index == 0 {
+					return true
+				}
+			case *ssa.Call:
+				return x.Call.StaticCallee() == cloneFn
+			case *ssa.Phi:
+				for _, e := range x.Edges {
+					if !chk(unspill(e), depth+1) {
+						return false
+					}
+				}
+				return len(x.Edges) > 0
+			}
+			return false
+		}
+		isClone = cloneFn != nil && chk(v, 0)
+		if !isClone {
+			bad = "the success return at " + p.InstrPos(ret) + " hands out something other than the result of KnowledgeBase.Clone"
+		} else {
+			clones = append(clones, v)
+		}
+	}
+	c.Check(bad == "" && nSucc > 0, "NewKnowledgeBaseInstance / every instance is a fresh clone", p.Pos(fn.Pos()), fmt.Sprintf("%d success return(s), each yields Clone's result", nSucc), bad+": callers would execute (and mutate) the shared blueprint, so instances are no longer isolated from the library or from each other")
+	// (b) when the structural self-check is made, its verdict gates the return (a check whose failure is ignored is a
+	// contradiction; dropping the check altogether is allowed: CLN-1/2/4/7/8 decide the clone's fidelity structurally)
+	var checks []*ssa.Call
+	for _, ci := range callsIn(fn) {
+		if call, ok := ci.(*ssa.Call); ok && calleeNameIs(call, "IsIdentical") {
+			checks = append(checks, call)
+		}
+	}
+	if len(checks) == 0 {
+		c.OK("NewKnowledgeBaseInstance / a failed self-check is not ignored", p.Pos(fn.Pos()), "no IsIdentical self-check is made (fidelity of the clone is decided by CLN-1/2/4/7/8)")
+		return
+	}
 	ok := false
 	for _, ret := range returnsOf(fn) {
 		if len(ret.Results) != 2 || !isNilConst(ret.Results[1]) || isNilConst(ret.Results[0]) {
@@ -642,7 +695,7 @@ func ruleCLN6(c *Ctx) {
 			return okc && kind == "bool" && si == sTrue
 		})
 	}
-	c.Check(ok, "NewKnowledgeBaseInstance / clone returned only when IsIdentical(clone)", p.Pos(fn.Pos()), "success return dominated by the true edge of IsIdentical", "the structural self-check no longer gates the returned instance")
+	c.Check(ok, "NewKnowledgeBaseInstance / a failed self-check is not ignored", p.Pos(fn.Pos()), "success return dominated by the true edge of IsIdentical", "IsIdentical is computed but a clone that failed it can still be returned")
 }
 
 // ---------- CLN-7 ----------
